@@ -153,6 +153,35 @@ def read_table(path, timeout=5.0):
 # ------------------------------------------------------------------------------------------------
 # rig: several real stores on one file
 # ------------------------------------------------------------------------------------------------
+class clock_on_day:
+    """SQLiteStore.add stamps rows with datetime.datetime.now(); inside this context that clock (as seen by
+    monkeytype.db.sqlite only) stands `day` days away from a fixed noon.  day=None leaves the real clock."""
+
+    def __init__(self, day):
+        self.day = day
+
+    def __enter__(self):
+        if self.day is None:
+            return self
+        import datetime as real
+        import types
+        import monkeytype.db.sqlite as sq
+        stamp = real.datetime(2024, 3, 10, 12, 0, 0) + real.timedelta(days=self.day)
+
+        class _DT(real.datetime):
+            @classmethod
+            def now(cls, tz=None):
+                return stamp
+        self.sq, self.saved = sq, sq.datetime
+        sq.datetime = types.SimpleNamespace(datetime=_DT)
+        return self
+
+    def __exit__(self, *exc):
+        if self.day is not None:
+            self.sq.datetime = self.saved
+        return False
+
+
 class Rig:
     """conn 0 is SQLiteStore.make_store(path) literally; the others are the same construction with a short busy
     timeout so that an injected lock conflict does not wait 5 s."""
@@ -184,9 +213,11 @@ class Rig:
         """execute one op, return the observation dict"""
         kind = op[0]
         if kind == "add":
-            _, ci, specs = op
+            ci, specs = op[1], op[2]
+            day = op[3] if len(op) > 3 else None       # optional 4th element: the calendar day the add happens on
             try:
-                self.stores[ci].add([build_trace(s) for s in specs])
+                with clock_on_day(day):
+                    self.stores[ci].add([build_trace(s) for s in specs])
                 return {"k": "none"}
             except Exception as e:
                 return {"k": "raised", "err": f"{type(e).__name__}: {e}"}
